@@ -94,10 +94,14 @@ def summarise(branch, stmts, in_loop=None):
                     ev.append(("check", x, "raise", s.lineno))
                     continue
                 if len(b) == 2 and isinstance(b[0], ast.Assign) and isinstance(b[0].targets[0], ast.Name) and b[0].targets[0].id == x \
-                        and ast.unparse(b[0].value) == "self.inline_close" and isinstance(b[1], ast.If) and none_test(b[1].test) == x \
+                        and ast.unparse(b[0].value) == "self.inline_close" and isinstance(b[1], ast.If) \
                         and len(b[1].body) == 1 and is_raise_value_error(b[1].body[0]) and not b[1].orelse:
-                    ev.append(("check", x, "close-or-raise", s.lineno))
-                    continue
+                    inner = b[1].test
+                    disj = inner.values if isinstance(inner, ast.BoolOp) and isinstance(inner.op, ast.Or) else [inner]
+                    if any(none_test(d) == x for d in disj):
+                        # other disjuncts (`or sweep is None`) are only evaluated when x was missing: they prove nothing in general
+                        ev.append(("check", x, "close-or-raise", s.lineno))
+                        continue
                 if len(b) == 1 and isinstance(b[0], ast.Raise):
                     ev.append(("check-wrong-exception", x, ast.unparse(b[0]), s.lineno))
                     continue
